@@ -67,7 +67,7 @@ REACH = ["_node:Node.add_child", "_node:Node.insert_child", "_node:Node.remove_c
          "_edge:Edge._set_tail_node", "_tree:Tree._set_is_unrooted", "_tree:Tree._set_seed_node",
          "_tree:Tree.preorder_edge_iter", "_tree:Tree.postorder_edge_iter", "_tree:Tree.levelorder_edge_iter",
          "_node:Node.inorder_iter", "_node:Node.apply"]
-MIN_EVENTS = {"op-applied": (20000, 400000), "walker-ok": (20000, 400000), "multiset-judged": (15000, 300000),
+MIN_EVENTS = {"encode-basal-bifurcation-clause-checked": (10000, 100000), "op-applied": (20000, 400000), "walker-ok": (20000, 400000), "multiset-judged": (15000, 300000),
               "bipartitions-judged": (3000, 60000), "documented-error-seen": (50, 500), "history-completed": (100, 3000),
               "traversals-judged": (4000, 100000), "traversal-compared": (400000, 9000000),
               "live-continuation-step": (20000, 600000), "op-on-leftovers-of-the-history": (10000, 300000),
@@ -1122,7 +1122,35 @@ def run_case(case, ctx):
     rng = random.Random("%s/%s" % (case["seed"], sorted((k, str(v)) for k, v in case.items())))
     _counter[0] = 0
     L.quiet_deprecations()
-    if case["kind"] == "explore":
-        explore(ctx, case, rng)
-    else:
-        history(ctx, case, rng)
+    from ..mon.hooks import Hooks
+    import dendropy
+    with Hooks(ctx) as hooks:
+        hooks.install(dendropy.Tree, "encode_bipartitions", post=_encode_post(ctx), outermost_only=False)
+        if case["kind"] == "explore":
+            explore(ctx, case, rng)
+        else:
+            history(ctx, case, rng)
+
+
+def _encode_post(ctx):
+    """'... with exactly what a fresh encoding would produce': every encoding an operation performs with the restructuring
+    flags at their defaults must leave nothing for a fresh encoding to restructure.  On an unrooted tree that means: no
+    bifurcating seed node with an internal child (two basal edges would carry one split).  Judged on the library's own
+    encode calls (operations that deliberately encode with collapse_unrooted_basal_bifurcation=False, such as
+    to_outgroup_position, are not concerned).  Seeded change C03d."""
+    NAMES = ("suppress_unifurcations", "collapse_unrooted_basal_bifurcation", "suppress_storage", "is_bipartitions_mutable")
+
+    def post(snap, tree, args, kw, result, exc):
+        if exc is not None or tree._seed_node is None:
+            return
+        flags = dict(zip(NAMES, args))
+        flags.update(kw)
+        if not (flags.get("suppress_unifurcations", True) and flags.get("collapse_unrooted_basal_bifurcation", True)) or tree._is_rooted:
+            return
+        ctx.ev("encode-basal-bifurcation-clause-checked")
+        kids = tree._seed_node._child_nodes
+        if len(kids) == 2 and any(k._child_nodes for k in kids):
+            ctx.violation("encode_bipartitions|stale-bipartitions|unrooted-basal-bifurcation-left-in-place",
+                          "an encoding with default restructuring flags left an unrooted tree with a bifurcating seed node that has an "
+                          "internal child: two basal edges carry one split, a fresh encoding restructures the tree again", {"flags": flags})
+    return post
